@@ -63,7 +63,7 @@ def run_rust_side(c, tier, scratch, methods=None):
     outdir = os.path.join(scratch, "rs")
     os.makedirs(outdir)
     threads = max(2, min(6, vcommon.NCPU // 3))
-    workers = max(2, vcommon.NCPU - 2)
+    workers = int(os.environ.get("VERIF_C07_WORKERS", max(2, vcommon.NCPU - 2)))
     shard = "100000"
     proc = subprocess.Popen([drv, outdir, tier, str(threads), shard, ",".join(methods) if methods else "-"],
                             stdout=subprocess.PIPE, stderr=subprocess.PIPE)
@@ -147,12 +147,8 @@ def main(tier):
         summary = rs["summary"]
         twin = None
         if not os.environ.get("VERIF_C07_SKIP_TWIN"):
-            try:
-                import x64_twin
-            except ImportError:
-                x64_twin = None
-            if x64_twin is not None:
-                twin = x64_twin.run(c, tier, scratch, methods, summary)
+            import x64_twin
+            twin = x64_twin.run(c, tier, scratch, methods, summary)
         covered_names = [n for n, _, _, _ in gen["covered"]]
         not_run = [n for n in covered_names if n not in summary]
         disps = "{0,1,128,-2^31}" if tier == "quick" else "{0,1,-1,127,128,-128,-129,2^31-1,-2^31}"
